@@ -23,6 +23,10 @@ def parse_body(txt):
     out = []
     for t in txt.split():
         k, rest, b = t[0], t[1:], 0
+        if k == "Y":                      # Y<cleanup id>.<leaf id>: cleanup action that co_awaits a leaf
+            a, l = rest.split(".")
+            out.append(dict(k=k, a=int(a), b=int(l)))
+            continue
         if rest.endswith("c"):
             b, rest = 1, rest[:-1]
         out.append(dict(k=k, a=int(rest or 0), b=b))
@@ -47,6 +51,9 @@ CURATED = [
     ["X1 T1 Q R5", "S2 X2 A1"],                            # child falls off the end of its body on a foreign scheduler
     ["L1 X1 T1c Q R5", "X2 S1 Q A1 R6"],
     ["X1 N1 T1 R5", "L1 M2 X2 R6"],
+    ["L1 X1 Y2.2 A1 R5"],                                  # a cleanup action that suspends on a leaf, after a plain one was registered
+    ["Y1.2 T1 R5", "L1 Y2.3 X3 A1 R6"],                    # suspending cleanup actions in parent and child
+    ["Y1.2 S1 Y2.3 Q R5"],                                 # suspending cleanup actions registered on different schedulers
 ]
 
 
@@ -69,6 +76,7 @@ def random_script(rng):
         for i in range(n):
             opts = []
             if nx < 2: opts += ["X", "X"]
+            if nx < 2 and leaf[0] < 3: opts += ["Y"]
             if nl < 2: opts += ["L"]
             if nleaf < 2 and leaf[0] < 3: opts += ["A", "A", "A", "N", "M"]
             if ns < 1: opts += ["S"]
@@ -78,6 +86,7 @@ def random_script(rng):
                 break
             o = rng.choice(opts)
             if o == "X": nx += 1; st.append("X%d" % (10 * k + nx))
+            elif o == "Y": nx += 1; leaf[0] += 1; st.append("Y%d.%d" % (10 * k + nx, leaf[0]))
             elif o == "L": nl += 1; st.append("L%d" % (10 * k + nl))
             elif o in "ANM":
                 nleaf += 1; leaf[0] += 1
@@ -166,30 +175,36 @@ def compare(exp_steps, got_steps):
 def run(ctx):
     rep = ctx.rep
     prop = ctx.prop
-    monprop = {"C10": "ALL", "C11": "C11"}.get(prop, "ALL")
+    monprop = {"C10": "ALL", "C11": "C11", "C04": "C04"}.get(prop, "ALL")
     rep.assume("task bodies are scripts over: local, at_coroutine_exit(task), co_await of a controllable leaf sender / awaitable / "
                "as_sender(awaitable) / child task / done_as_optional(child task) / schedule(ctx) / stop_if_requested(), throw, co_return; "
-               "<= 3 frames, <= 7 statements per body, <= 2 cleanup actions per frame; cleanup actions are tasks that complete inline")
+               "<= 3 frames, <= 7 statements per body, <= 2 cleanup actions per frame; cleanup actions are tasks that complete inline or suspend on a leaf that yields a value")
     rep.assume("leaf outcomes: inline value/error/done or deferred with any channel (awaitable leaves: value/error only); deferred leaf "
                "senders react to stop by ignoring it or completing with done; one stop request on the receiver at any quiescent point "
-               "(i.e. at every suspension point); all scheduler contexts are manual and drained one item at a time; single thread "
-               "(the stop request is issued between steps on the driving thread, not concurrently)")
+               "(i.e. at every suspension point); all scheduler contexts are manual and drained one item at a time; the replay of "
+               "TLC behaviours is single-threaded (stop requested between steps), the controlled-thread mode adds concurrent stop requests")
     rep.assume("g++-12 -std=c++20 -fcoroutines, asserts + async stacks on (no NDEBUG); ASan+UBSan; global operator new/delete replaced to count frames")
     cat = catalogue(ctx.tier)
     by_id = {s["id"]: s for s in cat}
     sp = os.path.join(ctx.work, "scripts.json")
     json.dump([dict(id=s["id"], body=s["body"]) for s in cat], open(sp, "w"))
-    # build first (cached); nothing else is built by this engine
-    exe = vlib.build(ctx, "coro_driver", [os.path.join(HERE, "driver.cpp")],
-                     lib=["task.cpp", "inplace_stop_token.cpp", "async_stack.cpp", "exception.cpp"], incs=[os.path.join(HERE, "rt")], std="c++20")
+    # build first (cached)
+    LIB = ["task.cpp", "inplace_stop_token.cpp", "async_stack.cpp", "exception.cpp"]
+    exe = vlib.build(ctx, "coro_driver", [os.path.join(HERE, "driver.cpp")], lib=LIB, incs=[os.path.join(HERE, "rt")], std="c++20")
+    exe_race = vlib.build(ctx, "coro_driver_race", [os.path.join(HERE, "driver_race.cpp")], lib=LIB, incs=[os.path.join(HERE, "rt")], std="c++20")
     # ---- TLC: fine-grained model, invariants in every state
     vlib.model_check(ctx, "coro", "TasksMC", env={"SCRIPTS": sp}, timeout=3000, xmx="8g")
     # ---- TLC: the stop-request thunk's refcount join under all interleavings of completion / stop request / deferred stop
-    vlib.model_check(ctx, "coro", "SrThunk", cfg="SrThunk.cfg", workers=1, timeout=600)
-    rb = vlib.model_check(ctx, "coro", "SrThunk", cfg="SrThunkBad.cfg", workers=1, timeout=600, must_hold=False)
-    if rb["kind"] != "invariant":
-        raise vlib.Broken("SrThunkBad.cfg (callback destroyed after the decrement) should violate NoUseAfterFree; got %s" % rb["kind"])
-    rep.note("SrThunk: join protocol holds (TLC, 3 threads); the seeded variant with callback_.destruct() after the decrement is refuted as expected")
+    if not ctx.quick:
+        vlib.model_check(ctx, "coro", "SrThunk", cfg="SrThunk.cfg", workers=1, timeout=600)      # + termination under weak fairness
+    for v in (("who_late",) if ctx.quick else ("who_late", "start_early", "no_destruct")):
+        rb = vlib.model_check(ctx, "coro", "SrThunk", cfg="SrThunk_%s.cfg" % v, workers=1, timeout=600, must_hold=False)
+        if rb["kind"] != "invariant":
+            raise vlib.Broken("SrThunk_%s.cfg (seeded defect) should violate NoUseAfterFree; got %s" % (v, rb["kind"]))
+    sr_edges = os.path.join(ctx.work, "sr_edges.ndjson")
+    vlib.model_check(ctx, "coro", "SrThunkMC", cfg="SrThunkMC.cfg", env={"EDGES": sr_edges}, workers=1, timeout=600)
+    rep.note("SrThunk: the join protocol holds (TLC, roles R/T/S/Q at schedule-point granularity); seeded defects "
+             "(who_late; thorough: also start_early, no_destruct) are refuted as expected")
     # ---- TLC: macro steps + export
     edges = os.path.join(ctx.work, "edges.ndjson")
     t0 = time.time()
@@ -207,7 +222,7 @@ def run(ctx):
         behaviours.append(dict(cfg=dict(script=sc["id"], body=sc["body"], mode=cfg["mode"]), steps=steps, started=False))
     rep.note("%d scripts; %d macro-steps exported (TLC %.0fs); %d edge-covering behaviours (%.0fs)" % (len(cat), nedges, t1 - t0, len(behaviours), time.time() - t1))
     nall = len(behaviours)
-    cap = int(os.environ.get("VERIF_CORO_CAP", "0") or 0) or (6000 if ctx.quick else 40000)
+    cap = int(os.environ.get("VERIF_CORO_CAP", "0") or 0) or (4000 if ctx.quick else 40000)
     if nall > cap:
         groups = collections.defaultdict(list)
         for b in behaviours:
@@ -290,7 +305,7 @@ def run(ctx):
         text, modes, steps = describe(b) if b else ("?", {}, [])
         nxt = rj["events"][rj["prefix"]] if rj.get("prefix") is not None and rj["prefix"] < len(rj["events"]) else None
         rep.violation(dict(engine="coro", event="MonitorReject", monitor="TaskMon", rules=monprop, script=text, modes=modes, steps=steps,
-                           rejected_event=nxt, rejected_kind=(nxt or {}).get("e"),
+                           rejected_event=nxt, rejected_kind=(nxt or {}).get("e"), **root_fields(rj["events"], rj.get("prefix")),
                            what="TaskMon[%s] rejects the execution of [%s] modes %s steps %s at event %s: %s" % (monprop, text, modes, steps, rj.get("prefix"), json.dumps(nxt)),
                            events=rj["events"][:250]))
     # ---- out-of-scope observation: stop callbacks still registered on the receiver's token at a done completion (C04 territory)
@@ -299,7 +314,7 @@ def run(ctx):
         for ln in ex[1]:
             if '"e":"RootComplete"' in ln and '"regs":0' not in ln:
                 nregs += 1
-    if nregs:
+    if nregs and prop != "C04":
         rep.oos.append(dict(event="StopCallbackRegisteredAtCompletion", count=nregs,
                             what="the outermost task completed (with done, no stop requested) while the stop-token adapter of its awaiter was still "
                                  "subscribed to the receiver's stop token (unsubscribed only when the operation is destroyed); not part of C10"))
@@ -310,6 +325,172 @@ def run(ctx):
         text, modes, steps = describe(b)
         rep.sample(dict(kind="tlc-behaviour", script=text, modes=modes,
                         steps=[dict(k=s["k"], n=s["n"], ch=s["ch"], expect=[e["e"] + str([e["k"], e["a"]]) for e in s["exp"]["ev"]]) for s in b["steps"]]))
+    # ---- controlled threads: completion of the awaited leaf / stop request / (two-thread) scheduler race on the real thunk
+    run_race(ctx, exe_race, sr_edges, monprop)
     rep.rule("one evaluation = one TLC behaviour (script x leaf modes x external step sequence incl. the stop request position) replayed on the real "
              "task<> machinery, its event log validated by TLC against TaskMon; distinct_nontrivial = distinct (script, modes, step sequence) with "
              "more than one external step")
+
+
+# ----------------------------------------------------------------------------- controlled-thread mode
+def race_scenarios(tier):
+    def mode(txt):
+        m = {}
+        for t in txt.split():
+            l, x = t.split(":")
+            m[l] = dict(inl=x[0] == "i", ch=(x[1] if x[1] != "D" else "v"), onStop="done" if x[1] == "D" else "ignore")
+        return m
+    S = []
+    def scn(bodies, modes, aLeaf, aCh, stopper=True, nsched=2):
+        S.append(dict(id=len(S) + 1, text=" | ".join(bodies), body=[parse_body(b) for b in bodies], mode=mode(modes),
+                      aLeaf=aLeaf, aCh=aCh, stopper=stopper, nsched=nsched, thunks=1 + sum(b.count("O") for b in bodies)))
+    scn(["A1 R5"], "1:dv", 1, "v")                                   # await a leaf
+    scn(["L1 X1 A1 R5"], "1:dD", 1, "v")                             # ... that completes with done when it sees the stop request
+    scn(["X1 T1 R5", "L1 X2 A1 R6"], "1:dv", 1, "e")                 # nested task awaiting a leaf that fails
+    scn(["O1 R5", "X1 A1 R6"], "1:dD", 1, "v")                       # done_as_optional(child): thunk inside thunk
+    scn(["A1 Q R5"], "1:dv", 1, "v")                                 # stop_if_requested after the await
+    scn(["L1 X1 A1 R5"], "1:dD", 0, "v")                             # nobody completes the leaf: the stop request must reach it
+    if tier != "quick":
+        scn(["S1 A1 R5"], "1:dv", 1, "v")                            # two contexts
+        scn(["Y1.2 A1 R5"], "1:dv 2:iv", 1, "v")                     # suspending cleanup action
+        scn(["T1c A2 R5", "A1 W7"], "1:dv 2:iv", 1, "e")
+        scn(["O1c R5", "L1 A1 W8"], "1:dv", 1, "v")
+        scn(["X1 T1 R5", "T2 R6", "A1 R7"], "1:dD", 1, "d")          # depth 3, the completer cancels
+        scn(["A1 R5"], "1:dv", 1, "v", nsched=1)                     # single scheduler thread
+        scn(["O1 R5", "X1 A1 R6"], "1:dv", 1, "d")
+        scn(["A1 R5"], "1:dv", 1, "v", stopper=False)
+    return S
+
+
+SR_VISIBLE = {"coro.sr.fin_destruct", "coro.sr.fin_who", "coro.sr.fin_fsub", "coro.sr.cb_fadd", "coro.sr.op_fsub", "coro.sr.op_who", "coro.h.stop"}
+
+
+def sr_graph(path):
+    adj = collections.defaultdict(list)
+    inits, fin, edges = set(), set(), set()
+    for l in open(path):
+        e = json.loads(l)
+        s, t = tuple(e["s"]), tuple(e["t"])
+        adj[s].append((e["lab"], t))
+        edges.add((s, e["lab"], t))
+        if e["init"]:
+            inits.add(s)
+        if e["fin"]:
+            fin.add(t)
+    return adj, inits, fin, edges
+
+
+def sr_follow(g, sched, used):
+    """Is the order of the thunk's steps in a recorded schedule a behaviour of SrThunk?  (set-of-states simulation, tau-closed)"""
+    adj, inits, fin, _ = g
+
+    def closure(S):
+        S = set(S)
+        st = list(S)
+        while st:
+            x = st.pop()
+            for lab, t in adj.get(x, ()):
+                if lab == "tau":
+                    used.add((x, lab, t))
+                    if t not in S:
+                        S.add(t)
+                        st.append(t)
+        return S
+    cur = closure(inits)
+    for i, (t, site) in enumerate(sched):
+        if site not in SR_VISIBLE:
+            continue
+        nxt = set()
+        for x in cur:
+            for lab, u in adj.get(x, ()):
+                if lab == site:
+                    nxt.add(u)
+                    used.add((x, lab, u))
+        if not nxt:
+            return "no %s step of SrThunk is possible at schedule position %d" % (site, i)
+        cur = closure(nxt)
+    if not (cur & fin):
+        return "SrThunk has not terminated at the end of the schedule"
+    return None
+
+
+def run_race(ctx, exe, sr_edges, monprop):
+    rep = ctx.rep
+    prop = ctx.prop
+    scns = race_scenarios(ctx.tier)
+    rep.assume("controlled-thread mode: %d scripts; threads = scheduler M (starts the task, drains the contexts), second scheduler thread Q, "
+               "completer A (completes the awaited leaf from a foreign context), stopper B (request_stop on the receiver's source); schedule "
+               "points coro.sr.* (task.hpp thunk atomics), stop.* (inplace_stop_source), spin_wait; sequentially consistent interleavings at "
+               "schedule-point granularity, DFS with preemption bound %d (capped) + seeded random schedules" % (len(scns), 2 if ctx.quick else 3))
+    sp = os.path.join(ctx.work, "race_scenarios.json")
+    json.dump(scns, open(sp, "w"))
+    g = sr_graph(sr_edges)
+    used = set()
+    hooked = "coro.sr.fin_fsub" in open(os.path.join(ctx.repo, "include", "unifex", "task.hpp")).read()
+    if not hooked:
+        rep.note("task.hpp has no coro.sr.* schedule points in this tree: the controlled-thread mode only interleaves at stop.* / harness sites")
+    runs = [("dfs", ["--mode", "dfs", "--bound", 2 if ctx.quick else 3, "--cap", 50 if ctx.quick else 1500]),
+            ("random", ["--mode", "random", "--seed", ctx.seed, "--cap", 25 if ctx.quick else 500])]
+    lp = os.path.join(ctx.work, "race_log.ndjson")
+    open(lp, "w").close()
+    t0 = time.time()
+    nexec = {}
+    for mode, args in runs:
+        lpm = os.path.join(ctx.work, "race_log_%s.ndjson" % mode)
+        outp = os.path.join(ctx.work, "race_out_%s.ndjson" % mode)
+        sums, deaths = vlib.run_batches(ctx, exe, ["--scenarios", sp, "--out", outp] + args, len(scns), lpm, timeout=3000)
+        with open(lp, "a") as f:
+            f.write(open(lpm).read())
+        execs = sum(s["execs"] for s in sums)
+        nexec[mode] = execs
+        rep.evaluations += execs
+        for d in deaths:
+            sc = scns[d["x"]] if d["x"] < len(scns) else {}
+            rec = dict(engine="coro", mode="race-" + mode, event=d["event"], script=sc.get("text"), scenario=sc.get("id"), asan=d.get("asan"),
+                       frame=d.get("frame"), where=d.get("where"),
+                       what="%s in controlled-thread mode (%s) on [%s] completer=%s stopper=%s: %s %s" % (
+                           d["event"], mode, sc.get("text"), sc.get("aCh") if sc.get("aLeaf") else "-", sc.get("stopper"), d.get("asan", ""), d.get("frame", "")),
+                       detail=d.get("stderr_tail"))
+            if prop == "C10":
+                rep.violation(rec)         # memory event / terminate / deadlock (lost completion) in a lifetime + progress statement
+            else:
+                rep.oos.append(rec)
+        ndrift = 0
+        if os.path.exists(outp):
+            for l in open(outp):
+                try:
+                    r = json.loads(l)
+                except Exception:
+                    continue
+                rep.distinct.add(hash((mode, r["x"], json.dumps(r["sched"]))))
+                if hooked and scns[r["x"]]["thunks"] == 1:
+                    why = sr_follow(g, r["sched"], used)
+                    if why:
+                        ndrift += 1
+                        rep.drift += 1
+                        if ndrift <= 2:
+                            rep.note("race-%s: thunk step order not a behaviour of SrThunk (drift, not an alarm) in [%s]: %s; %s" % (
+                                mode, scns[r["x"]]["text"], why, [x for x in r["sched"] if x[1] in SR_VISIBLE]))
+    n, rejected = vlib.validate_batched(ctx, "coro", "TaskMon", lp, env={"PROP": monprop}, max_reports=6)
+    for rj in rejected:
+        x = rj["x"]
+        sc = scns[x] if x is not None and x < len(scns) else {}
+        nxt = rj["events"][rj["prefix"]] if rj.get("prefix") is not None and rj["prefix"] < len(rj["events"]) else None
+        rep.violation(dict(engine="coro", mode="race", event="MonitorReject", monitor="TaskMon", rules=monprop, script=sc.get("text"),
+                           scenario=sc.get("id"), rejected_event=nxt, rejected_kind=(nxt or {}).get("e"), **root_fields(rj["events"], rj.get("prefix")),
+                           what="TaskMon[%s] rejects a controlled-thread execution of [%s] at event %s: %s" % (
+                               monprop, sc.get("text"), rj.get("prefix"), json.dumps(nxt)),
+                           events=rj["events"][:250]))
+    rep.note("controlled threads: %s executions on %d scripts, all validated against TaskMon[%s], %.0fs" % (nexec, len(scns), monprop, time.time() - t0))
+    if hooked:
+        _, _, _, edges = g
+        rep.note("SrThunk conformance: the thunk steps of every single-thunk execution follow the model; %d of %d model transitions covered by real executions"
+                 % (len(used & edges), len(edges)))
+
+
+def root_fields(events, prefix):
+    """Fields that identify a RootComplete rejection precisely (for known-finding matching)."""
+    ev = events[prefix] if prefix is not None and prefix < len(events) else {}
+    if ev.get("e") != "RootComplete":
+        return {}
+    return dict(root_ch=ev.get("ch"), root_regs=ev.get("regs"), ext_stop=any(e.get("e") == "ExtStop" for e in events[:prefix]))
